@@ -24,7 +24,10 @@ def variants(i, nfiles):
     """text variants of file i: (includes tuple, body)"""
     others = [j for j in range(nfiles) if j != i]
     out = []
-    bodies = ["class C%d;" % i, "class C%d : C%d { int f%d = 1; }" % (i, others[0], i) if others else "class C%d { int f; }" % i, "class"]
+    bodies = ["class C%d;" % i, "class C%d : C%d { int f%d = 1; }" % (i, others[0], i) if others else "class C%d { int f; }" % i, "class",
+              # records without a name of their own (the indexer makes one up), with members to hover over
+              "class C%d { int v = 0; }\ndef : C%d { int w%d = v; }\ndef { string s%d = \"x\"; }" % (i, i, i, i),
+              "multiclass M%d { def _x { int q%d = 1; } }\ndefm : M%d;\ndefm m%d : M%d;\ndef { int z%d = 2; }" % (i, i, i, i, i, i)]
     incsets = [(), tuple(others[:1]), tuple(others[:2]), (i,)]
     for inc in incsets:
         for b in bodies:
@@ -45,15 +48,16 @@ def histories(ck):
     atoms = []
     for i in range(nfiles):
         vs = variants(i, nfiles)
-        for inc, b in (vs[1], vs[4], vs[8], vs[9]):
+        nb = 5
+        for inc, b in (vs[1], vs[nb + 1], vs[2 * nb + 2], vs[3 * nb], vs[3], vs[nb + 3], vs[nb + 4]):
             atoms.append(("edit", i, inc, b))
             atoms.append(("editroot", i, inc, b))
         atoms.append(("root", i, None, None))
     for k in range(1, (3 if quick else 4) + 1):
         for combo in itertools.product(atoms, repeat=k):
-            if quick and k == 3 and rng.random() > 0.12:
+            if quick and k == 3 and rng.random() > 0.03:
                 continue
-            if (not quick) and k == 4 and rng.random() > 0.05:
+            if (not quick) and k == 4 and rng.random() > 0.01:
                 continue
             out.append(base + [("root", 0, None, None)] + list(combo))
     for _ in range(150 if quick else 30000):
